@@ -3,8 +3,12 @@
 import json, os, re
 ROOT = os.path.dirname(os.path.dirname(os.path.abspath(__file__)))
 rows = []
+retired = []
 for sid in sorted(os.listdir(os.path.join(ROOT, "seeded"))):
     m = json.load(open(os.path.join(ROOT, "seeded", sid, "meta.json")))
+    if m.get("retired"):
+        retired.append((sid, m["retired"]))
+        continue
     det = m.get("detection", {})
     caught = []
     for prop, d in det.items():
@@ -19,6 +23,9 @@ n = len(rows); k = sum(1 for r in rows if r[3] == "yes")
 out = [f"{k} of {n} seeded changes are reported by the check of their property (each confirmed first in a scratch copy: builds, the unedited suite passes with it, the sub-agent's demonstration fails with it and passes without it).", "",
        "| id | change | needs | caught | by (first failing obligations) |", "|---|---|---|---|---|"]
 out += [f"| {a} | {b} | {c} | {d} | {e} |" for a, b, c, d, e in rows]
+if retired:
+    out += ["", f"{len(retired)} further seeded changes are retired (not counted above): a later repair of /repo replaced the code they changed.", ""]
+    out += [f"* {sid}: {why}" for sid, why in retired]
 txt = "\n".join(out)
 p = os.path.join(ROOT, "DESIGN.md")
 s = open(p).read()
